@@ -16,6 +16,8 @@
 //!   offset: slots in block coordinates + offset of every element, against `packASlots` /
 //!   `packBSlots` / `packAOffset` / `packBOffset` (T3 tie), plus a naive-loop oracle.
 //!
+//! * `packsrc a|b <t> <row_stride> <col_stride> <r0> <r1> <c0> <c1>` — same packers on
+//!   offset-valued storage: the storage offsets read, against `packASrc` / `packBSrc` (strides).
 //! * `pblock a|b <t> <nm> <K> <bs> …` — `prepack_a` / `prepack_b` with a real kernel on an
 //!   index-valued operand, then `PackedMatrixBase::block` (verif hook) for every block and depth
 //!   block: span, total length and buffer contents against `prepackBase.block` / `prepackABuf` /
@@ -702,6 +704,41 @@ fn run_pack(out: &mut Out, kind: char, t: usize, mat: (usize, usize), lay: u8, r
     out.case(&req, &ans, fail.as_deref(), true);
 }
 
+/// Stride tie: storage is offset-valued (`storage[i] = i + 1`), the view has the strides of the
+/// chosen layout; the packed values are therefore the storage offsets the real packers read.
+fn run_packsrc(out: &mut Out, kind: char, t: usize, mat: (usize, usize), lay: u8, rs: usize, re: usize, cs: usize, ce: usize) {
+    let (mr_, mc_) = mat;
+    let (rstr, cstr) = strides_for(mr_, mc_, lay);
+    let len = (mr_ - 1) * rstr + (mc_ - 1) * cstr + 1;
+    let buf: Vec<f32> = (0..len + 2).map(|i| (i + 1) as f32).collect();
+    let v = view(&buf, mr_, mc_, rstr, cstr);
+    let req = format!("packsrc {kind} {t} {rstr} {cstr} {rs} {re} {cs} {ce} mat={mr_}x{mc_} lay={lay}");
+    out.bucket(&format!("packsrc {kind} lay={lay}"));
+    let res = hcommon::catch(|| {
+        if kind == 'a' { verif::pack_a_block_f32(t, v, rs..re, cs..ce) } else { verif::pack_b_block_f32(t, v, rs..re, cs..ce) }
+    });
+    match res {
+        Err(p) => out.case(&req, &format!("panic:{p}"), Some(&format!("pack_{kind}_block panicked: {p}")), true),
+        Ok(None) => out.case(&format!("# {req}"), "no-instantiation", None, false),
+        Ok(Some((packed, _, _))) => {
+            let ans = hcommon::join(packed.iter().map(|x| if *x == 0.0 { "_".to_string() } else { ((*x as i64) - 1).to_string() }), ",");
+            // independent oracle: every offset read must be the strided address of a block element
+            let mut fail = None;
+            for x in &packed {
+                if *x != 0.0 {
+                    let o = (*x as usize) - 1;
+                    let ok = (rs..re).any(|r| (cs..ce).any(|c| r * rstr + c * cstr == o));
+                    if !ok {
+                        fail = Some(format!("storage offset {o} read, which is not an element of the block"));
+                        break;
+                    }
+                }
+            }
+            out.case(&req, &ans, fail.as_deref(), true);
+        }
+    }
+}
+
 /// Prepacked block lookup tie: `prepack_a` / `prepack_b` of an index-valued operand with a real
 /// kernel, then `PackedMatrixBase::block` (verif hook) for every block of size `bs` and every
 /// depth block: span (start, len, stride) in elements, total length and the buffer contents.
@@ -904,6 +941,9 @@ fn main() {
         let cs = if rng.chance(1, 2) { 0 } else if kind == 'b' && rng.chance(1, 2) { t * (1 + rng.usize_below(2)) } else { rng.usize_below(7) };
         let mat = (rs + rows + rng.usize_below(3), cs + cols + rng.usize_below(3));
         run_pack(&mut out, kind, t, mat, rng.below(5) as u8, rs, rs + rows, cs, cs + cols);
+        if rng.chance(1, 2) {
+            run_packsrc(&mut out, kind, t, mat, rng.below(5) as u8, rs, rs + rows, cs, cs + cols);
+        }
     }
 
     // 2c. prepacked block lookup (K around / beyond the depth block so that a short tail block exists).
